@@ -99,7 +99,7 @@ ATT_FN = re.compile(r'^([ \t]*(?:ATTACHMENT|APPENDIX|SCHEDULE|ANNEXURE)[^\n]*?)\
 
 def _unref_footnotes(text):
     refs = set(re.findall(r'\{\{FOOTNOTE ([^}\n]*?)\s*\}\}', text))
-    return re.sub(r'^([ \t]*)FOOTNOTE ([^ \n]+)[ \t]*$', lambda m: m.group(0) if m.group(2) in refs else m.group(1) + 'BLOCKS', text, flags=re.M)
+    return re.sub(r'^([ \t]*)FOOTNOTE +([^ \n]+)[ \t]*$', lambda m: m.group(0) if m.group(2) in refs else m.group(1) + 'BLOCKS', text, flags=re.M)
 
 
 REPAIRS = [
@@ -108,7 +108,9 @@ REPAIRS = [
     ('F30', lambda t: re.sub(r'\{by [^|}\n]*\}', '', re.sub(r'\|by [^|}\n]*', '', re.sub(r'\{by [^|}\n]*\|', '{', t)))),  # explicit by attribute
     ('F9', lambda t: re.sub(r'^([ \t]*)\\ITEM', r'\1xITEM', t, flags=re.M)),          # list introduction starting with ITEM
     ('F7', lambda t: ATT_FN.sub(lambda m: m.group(1), t)),                              # footnote reference in an attachment heading
-    ('F6', _unref_footnotes),                                                           # unreferenced FOOTNOTE block
+    ('F6', _unref_footnotes),
+    # a reference whose marker contains a blank: no FOOTNOTE block line can carry that marker
+    ('F43', lambda t: re.sub(r'\{\{FOOTNOTE ([^}\n]*?)\}\}', lambda m: '{{FOOTNOTE ' + re.sub(r'\s+', '_', m.group(1).strip()) + '}}', t)),                                                           # unreferenced FOOTNOTE block
 ]
 
 
@@ -123,6 +125,10 @@ def classify(text, root, r, u, r2, prefix=''):
         return any(synth(k) for k in n[2] if not isinstance(k, str))
     if synth(r['xml']):
         return 'F31'
+    # F42: the derived `by` of a speech is built from the raw text of the FROM line (keyword and markup included); the
+    # unparser writes that markup in canonical form, so `by` changes although nothing else does
+    if r2.get('xml') is not None and norm(drop_by(r2['xml'])) == norm(drop_by(r['xml'])) and re.search(r'^[ \t]*FROM [^\n]*[{*/_\\]', text, re.M):
+        return 'F42'
     text = text.strip()   # what pre_parse does first (any str.isspace character, not only blanks and tabs)
     changed = []
     allr = text
@@ -147,7 +153,7 @@ def classify(text, root, r, u, r2, prefix=''):
 
 
 def _only_empty_wrappers_lost(text, root, prefix):
-    if not re.search(r'^[ \t]*FOOTNOTE [^ \n]', text, re.M):
+    if not re.search(r'^[ \t]*FOOTNOTE +[^ \n]', text, re.M):
         return False
     r = real.convert(text, root, prefix=prefix)
     if 'etree' not in r:
@@ -159,13 +165,20 @@ def _only_empty_wrappers_lost(text, root, prefix):
     if 'xml' not in r2:
         return False
     rr = eidlib.real_rewrite(pruned, prefix)
-    if not ('tree' in rr and norm(rr['tree']) == norm(r2['xml'])):
+    r2p = eidlib.real_rewrite(prune_empty_wrappers(r2['xml']), prefix)
+    if not ('tree' in rr and 'tree' in r2p and norm(rr['tree']) == norm(r2p['tree'])):
         return False
     r3 = real.convert(unparse_real(r2['etree']), root, prefix=prefix)
     return r3.get('xml') == r2['xml']
 
 
-WRAPPERS = {'hcontainer', 'intro', 'wrapUp'}
+def drop_by(n):
+    tag, attrs, kids = n
+    a = {k: v for k, v in attrs.items() if not (k == 'by' and tag in ('speech', 'question', 'answer', 'speechGroup'))}
+    return [tag, a, [k if isinstance(k, str) else drop_by(k) for k in kids]]
+
+
+WRAPPERS = {'hcontainer', 'intro', 'wrapUp', 'li'}
 
 
 def prune_empty_wrappers(n):
@@ -176,6 +189,8 @@ def prune_empty_wrappers(n):
             ks.append(k)
         elif k[0] in WRAPPERS and not k[2]:
             continue
+        elif k[0] == 'li' and len(k[2]) == 1 and not isinstance(k[2][0], str) and k[2][0][0] == 'p' and not k[2][0][2]:
+            continue   # what an empty bullet item becomes when it is re-parsed
         else:
             ks.append(prune_empty_wrappers(k))
     return [tag, attrs, ks]
@@ -232,6 +247,8 @@ def run(ctx, info):
         k = rng.random()
         t = gen.doc_text(rng, root, corners=0.25) if k < 0.7 else nested_fn_doc(rng) if k < 0.85 else gen.noise_text(rng)
         cases.append((t, root, rng.choice(['', '', 'att_1'])))
+    pw = gen.pairwise_docs()   # every construct inside every context; a third of them in the quick tier
+    cases += [(t, r, '') for i, (_, t, r) in enumerate(pw) if ctx.tier == 'thorough' or i % 3 == ctx.seed % 3]
     nb = 0
     known = {}
     trees = []
